@@ -15,14 +15,30 @@
    C12_predefined_no_location, C12_type_definition_none, C12_definition_is_declaration,
    C12_answer_is_a_token, C12_implementation_refines_declaration, and (new with b909979)
    C12_global_position_ignores_locals, C12_global_position_as_type_context, C12_local_wins.
-   STATED, NOT PROVED, NOT REFUTED: C12_full_statement (Spec/Nav.v), the property text read formally
-   (every identifier occurrence of a diagnostic-free text, at every position inside it, yields the
-   name of the declaration it is bound to by its syntactic role).  Before b909979 it was refuted on
-   the model by the witnesses of the findings C12-proc-name-shadowed-by-own-local and
-   C12-type-use-shadowed-by-local; on these witnesses it HOLDS now (C12_repaired_witnesses_agree), no
-   counterexample is known, and it is validated by the check: correspondence of the model with the
-   server, the derivation-based oracle, and the judge deciding the instances of the Coq statement
-   itself on generated programs (command 37). *)
+   PROVED for every VALID program in every layout (the full functional statement):
+     C12_valid        for every abstract program p of the grammar (Spec/Grammar.v) whose mandated tree is
+                      well-typed (Spec/Typing.v), every text t that lexes to p's tokens, every identifier
+                      occurrence o of the tree (Spec/Nav.v [occurrences]: the seven syntactic roles) and every
+                      position inside o's token: declaration and definition answer the name token of the
+                      declaration o is bound to under SPL scoping (nothing for predefined entities),
+                      typeDefinition the type declaration itself / for a parameter or variable the declaration
+                      that created its array type (alias chains followed; nothing for int and for array types
+                      written in place), implementation the procedure declaration.  This is
+                      C12_full_statement with "clean_doc t d" replaced by "t is a layout of a well-typed
+                      abstract program" (the formulation of C03_no_false_positive, C14_hover_valid, C17_valid).
+                      Proofs/GotoValidModel.v, GotoValidNav.v, GotoValidHandlers.v, GotoValidMain.v.
+     C12_valid_text   the same for every rendering (Proofs/RenderProofs.v) of such a program
+     C12_valid_ex     non-vacuity: the theorem applied to the valid program of Props/C14.v
+   NOT proved: C12_full_statement (Spec/Nav.v) in its formulation over "documents without diagnostics"; on top
+   of C12_valid it needs the completeness of the front end (no diagnostic => the text is a layout of a
+   well-typed abstract program).  Before b909979 it was refuted on the model by the witnesses of the findings
+   C12-proc-name-shadowed-by-own-local and C12-type-use-shadowed-by-local; on these witnesses it HOLDS now
+   (C12_repaired_witnesses_agree), and it is validated by the check: correspondence of the model with the
+   server, the derivation-based oracle, and the judge deciding the instances of the Coq statement itself on
+   generated programs (command 37). *)
+From Spl Require Import Props.C14.
+From Spl Require Import Proofs.GrammarProofs Spec.Typing Proofs.TypingProofs Proofs.RenderProofs Proofs.PipelineText.
+From Spl Require Import Proofs.HoverValid Proofs.GotoValidMain.
 From Spl Require Import Model.Goto Model.Refs Spec.Nav Proofs.GotoProofs.
 Import ListNotations.
 Local Open Scope N_scope.
@@ -213,4 +229,82 @@ Example C12_sample_answers :
   /\ goto_type_definition d 1 61 = ROk None
   /\ goto_type_definition d 1 52 = ROk (Some ((0, 5), (0, 6)))
   /\ goto_implementation d 1 69 = ROk (Some ((1, 5), (1, 6))).
+Proof. vm_compute. repeat split. Qed.
+
+(* ---- the full functional statement on VALID programs ---- *)
+
+(* 11. C12_full_statement with the hypothesis "clean_doc t d" (the analysis reports no diagnostic) replaced
+       by "t is a layout of a well-typed abstract program": p ranges over the derivations of the grammar
+       (a comment slot in front of every token), G over the tables with [well_typed (expected p) G], t over
+       the texts that lex to p's token kinds *)
+Theorem C12_valid : forall (p : aprog) (G : gtable) (t : text) (toks : list token) (d : doc),
+  prog_ok p = true -> well_typed (expected p) G ->
+  lex t = Some toks -> map tk toks = flatten p ++ [Eof] ->
+  new_doc_res t = ODone d ->
+  forall o l c, In o (occurrences (d_ast d)) -> cursor_inside d o l c ->
+    goto_declaration d l c = ROk (spec_declaration d o)
+    /\ goto_definition d l c = ROk (spec_declaration d o)
+    /\ goto_type_definition d l c = ROk (spec_type_definition d o)
+    /\ goto_implementation d l c = ROk (spec_implementation d o).
+Proof. exact goto_valid. Qed.
+Print Assumptions C12_valid.
+
+(* ... from text: every rendering of a valid abstract program (any white space gaps satisfying gaps_ok,
+   comments in any token gap; Proofs/RenderProofs.v, Proofs/PipelineText.v, explained in Props/C04.v)
+   is such a layout, and the analysis never fails on it *)
+Theorem C12_valid_text : forall (p : aprog) (G : gtable) gaps (t : text),
+  prog_ok p = true -> aprog_valid p = true -> gaps_ok (flatten p) gaps -> render_kinds (flatten p) gaps = Some t ->
+  well_typed (expected p) G ->
+  exists toks d, lex t = Some toks /\ map tk toks = flatten p ++ [Eof] /\ new_doc_res t = ODone d /\
+  forall o l c, In o (occurrences (d_ast d)) -> cursor_inside d o l c ->
+    goto_declaration d l c = ROk (spec_declaration d o)
+    /\ goto_definition d l c = ROk (spec_declaration d o)
+    /\ goto_type_definition d l c = ROk (spec_type_definition d o)
+    /\ goto_implementation d l c = ROk (spec_implementation d o).
+Proof.
+  intros p G gaps t Hok Hv Hg Hr Hwt. destruct (text_layout_of p gaps t Hv Hg Hr) as [toks [Hl Hk]].
+  exists toks, {| d_text := t; d_toks := toks; d_ast := expected p; d_table := G |}.
+  assert (Hd : new_doc_res t = ODone {| d_text := t; d_toks := toks; d_ast := expected p; d_table := G |}).
+  { destruct (no_false_positive_tree _ _ (expected_clean p) Hwt) as [Hb [Ha _]].
+    unfold new_doc_res. now rewrite Hl, (roundtrip p toks Hok Hk), Hb, Ha. }
+  repeat split; try assumption; now apply (goto_valid p G t toks _ Hok Hwt Hl Hk Hd).
+Qed.
+Print Assumptions C12_valid_text.
+
+(* non-vacuity: the hypotheses of C12_valid hold for the program of Props/C14.v
+     type t = int;
+     // doc
+     proc k(a: t) { var k: t; var t: t; t := a; k := t; }
+     proc main() {}
+   (a procedure that declares a variable named like itself and a variable named like the type of its
+   parameter): the theorem applies to each of its 14 identifier occurrences at every position inside them *)
+Example C12_valid_ex :
+  match new_doc_res c14_valid_text with
+  | ODone d =>
+      length (occurrences (d_ast d)) = 14%nat /\
+      forall o l c, In o (occurrences (d_ast d)) -> cursor_inside d o l c ->
+        goto_declaration d l c = ROk (spec_declaration d o)
+        /\ goto_definition d l c = ROk (spec_declaration d o)
+        /\ goto_type_definition d l c = ROk (spec_type_definition d o)
+        /\ goto_implementation d l c = ROk (spec_implementation d o)
+  | _ => False
+  end.
+Proof.
+  destruct C14_ex_layout as [Hok Hl].
+  destruct (lex c14_valid_text) as [toks|] eqn:El; [|contradiction].
+  destruct (new_doc_res c14_valid_text) as [d|s|] eqn:Ed;
+    [|vm_compute in Ed; discriminate Ed|vm_compute in Ed; discriminate Ed].
+  split; [|exact (C12_valid c14_p c14_table c14_valid_text toks d Hok C14_ex_well_typed El Hl Ed)].
+  assert (Ed' : d = match new_doc_res c14_valid_text with ODone x => x | _ => d end) by now rewrite Ed.
+  rewrite Ed'. vm_compute. reflexivity.
+Qed.
+
+(* ... and evaluated independently of the theorem: at the first and the last column of every occurrence the
+   handlers answer what the specification says; e.g. the name `k` of the procedure (2,5) and the type `t`
+   behind `var k:` (2,22) are resolved globally although k declares variables k and t *)
+Example C12_valid_eval :
+  forallb (agrees_at (doc_of c14_valid_text)) (occurrences (d_ast (doc_of c14_valid_text))) = true
+  /\ goto_declaration (doc_of c14_valid_text) 2 5 = ROk (Some ((2, 5), (2, 6)))
+  /\ goto_declaration (doc_of c14_valid_text) 2 22 = ROk (Some ((0, 5), (0, 6)))
+  /\ goto_declaration (doc_of c14_valid_text) 2 43 = ROk (Some ((2, 19), (2, 20))).
 Proof. vm_compute. repeat split. Qed.
